@@ -31,6 +31,13 @@ struct Log(Vec<(&'static str, u32, Option<Entity>, Option<Entity>)>);
 #[derive(Resource, Default)]
 struct UpdateLog(Vec<(&'static str, u32)>);
 
+/// Client-direction emissions that the game performs from inside `Update` of the next frame.
+#[derive(Resource, Default)]
+struct Outbox {
+    cev: Vec<u32>,
+    ctrig: Vec<(u32, Option<Entity>)>,
+}
+
 fn mk(dedicated: bool, auth: AuthMethod) -> App {
     let mut app = App::new();
     let plugins = RepliconPlugins
@@ -44,6 +51,18 @@ fn mk(dedicated: bool, auth: AuthMethod) -> App {
     app.insert_resource(TimeUpdateStrategy::ManualDuration(Duration::from_millis(10)))
         .init_resource::<Log>()
         .init_resource::<UpdateLog>()
+        .init_resource::<Outbox>()
+        .add_systems(Update, |mut o: ResMut<Outbox>, mut w: EventWriter<CEv>, mut commands: Commands| {
+            for s in o.cev.drain(..) {
+                w.write(CEv(s));
+            }
+            for (s, t) in o.ctrig.drain(..) {
+                match t {
+                    Some(t) => commands.client_trigger_targets(CTrig(s), t),
+                    None => commands.client_trigger(CTrig(s)),
+                }
+            }
+        })
         .add_systems(
             Update,
             (
@@ -130,6 +149,7 @@ struct Case {
     transitions: u32,
     events: u32,
     checks: u64,
+    failed_attempt_events: u64,
     harness_error: Option<String>,
 }
 
@@ -138,7 +158,7 @@ fn run_case(seed: u64) -> Case {
     let dedicated = rng.below(4) == 0;
     let auth = [AuthMethod::ProtocolCheck, AuthMethod::ProtocolCheck, AuthMethod::None, AuthMethod::Custom][rng.below(4)];
     let steps = 30 + rng.below(90);
-    let mut case = Case { cfg: format!("dedicated={dedicated} auth={auth:?}"), log: vec![], errs: vec![], transitions: 0, events: 0, checks: 0, harness_error: None };
+    let mut case = Case { cfg: format!("dedicated={dedicated} auth={auth:?}"), log: vec![], errs: vec![], transitions: 0, events: 0, checks: 0, failed_attempt_events: 0, harness_error: None };
     let mut in_update = false;
     let res = catch_unwind(AssertUnwindSafe(|| {
         let mut app = mk(dedicated, auth);
@@ -151,6 +171,8 @@ fn run_case(seed: u64) -> Case {
         let mut pending_s: Vec<(&'static str, u32, bool, Option<Entity>)> = vec![];
         let mut expect: BTreeMap<u32, Exp> = BTreeMap::new();
         let mut force_frame = false;
+        let mut prev_connecting: Vec<u32> = vec![];
+        let mut inside_update: Vec<u32> = vec![];
         let base = if auth == AuthMethod::ProtocolCheck { 2 } else { 1 };
         for step in 0..steps + 4 {
             let settle = step >= steps;
@@ -208,17 +230,30 @@ fn run_case(seed: u64) -> Case {
                     seq += 1;
                     case.events += 1;
                     let target = if rng.below(2) == 0 { Some(targets[rng.below(3)]) } else { None };
+                    // half of the emissions happen inside the next frame's Update (game logic), half between frames
+                    let inside = rng.below(2) == 0;
                     if rng.below(2) == 0 {
-                        app.world_mut().send_event(CEv(seq));
+                        if inside {
+                            app.world_mut().resource_mut::<Outbox>().cev.push(seq);
+                        } else {
+                            app.world_mut().send_event(CEv(seq));
+                        }
                         pending.push(("CEv", seq, None));
                     } else {
-                        match target {
-                            Some(t) => app.world_mut().client_trigger_targets(CTrig(seq), t),
-                            None => app.world_mut().client_trigger(CTrig(seq)),
+                        if inside {
+                            app.world_mut().resource_mut::<Outbox>().ctrig.push((seq, target));
+                        } else {
+                            match target {
+                                Some(t) => app.world_mut().client_trigger_targets(CTrig(seq), t),
+                                None => app.world_mut().client_trigger(CTrig(seq)),
+                            }
                         }
                         pending.push(("CTrig", seq, target));
                     }
-                    case.log.push(format!("emit client-direction {:?}", pending.last().unwrap()));
+                    if inside {
+                        inside_update.push(seq);
+                    }
+                    case.log.push(format!("emit client-direction {:?}{}", pending.last().unwrap(), if inside { " (inside Update of the next frame)" } else { "" }));
                 }
                 4 | 5 => {
                     // server-direction events are emitted while acting as server or singleplayer
@@ -265,6 +300,21 @@ fn run_case(seed: u64) -> Case {
                 _ => {
                     // frame: expectations are keyed by the state at the processing frame
                     let st = client_st;
+                    // a connection attempt that fails right away: what the game wrote during the last
+                    // Connecting frame is still in the event buffers and the app is singleplayer again
+                    if st == St::Disconnected {
+                        for s in prev_connecting.drain(..) {
+                            if let Some(e) = expect.get_mut(&s) {
+                                e.must_local = true;
+                                case.failed_attempt_events += 1;
+                            }
+                        }
+                    }
+                    prev_connecting.clear();
+                    if st == St::Connecting {
+                        // (only what was written inside that frame is still buffered in the next one)
+                        prev_connecting.extend(pending.iter().map(|(_, s, _)| *s).filter(|s| inside_update.contains(s)));
+                    }
                     for (kind, s, target) in pending.drain(..) {
                         let e = match st {
                             // a target that the server does not know cannot be mapped: such a trigger may be withheld
@@ -420,6 +470,7 @@ fn main() {
         res.obs.add("events_emitted", c.events as u64);
         res.obs.add("status_transitions", c.transitions as u64);
         res.obs.add("handling_observations_checked", c.checks);
+        res.obs.add("events_of_a_connecting_frame_followed_by_a_failed_attempt", c.failed_attempt_events);
         if let Some(h) = c.harness_error {
             harness_errors.push(json!({"seed": seed, "error": h}));
             continue;
@@ -440,6 +491,6 @@ fn main() {
     }
     let mut j = res.to_json();
     j["harness_errors"] = json!(harness_errors);
-    j["rule"] = json!("one case = one app (full plugin group or dedicated server without client plugins; ProtocolCheck / None / Custom auth) driven for 30..120 steps through random status transitions (client Disconnected/Connecting/Connected, server started/stopped) interleaved with emissions of client- and server-direction events and triggers (with and without targets, all send modes incl. SERVER) at arbitrary frames; per event the number of remote sends (decoded from RepliconClient::drain_sent) plus local observations must be exactly one on the path selected by the state at its processing frame; non-trivial = >=2 transitions and >=3 events; distinct = distinct trace");
+    j["rule"] = json!("one case = one app (full plugin group or dedicated server without client plugins; ProtocolCheck / None / Custom auth) driven for 30..120 steps through random status transitions (client Disconnected/Connecting/Connected, server started/stopped) interleaved with emissions of client- and server-direction events and triggers (client-direction ones half between frames, half from a system inside Update; what is written inside a Connecting frame must be handled locally when the attempt fails in the next frame) (with and without targets, all send modes incl. SERVER) at arbitrary frames; per event the number of remote sends (decoded from RepliconClient::drain_sent) plus local observations must be exactly one on the path selected by the state at its processing frame; non-trivial = >=2 transitions and >=3 events; distinct = distinct trace");
     write_json(&out, &j);
 }
